@@ -43,13 +43,19 @@ func runConnIDs(w *bufio.Writer, seed uint64, n int, _ []string) {
 	for i := 0; i < nm; i++ {
 		c.mgrCase(r.Fork(), i)
 	}
+	c.genWitnesses()
 	for i := 0; i < ng; i++ {
-		c.genCase(r.Fork(), i)
+		c.genCase(r.Fork(), i, false)
 	}
 	// the routing table runs on virtual time (time.AfterFunc inside ReplaceWithClosed)
 	synctest.Run(func() {
-		for i := 0; i < n-nm-ng; i++ {
-			c.routeCase(r.Fork(), i)
+		nr := n - nm - ng
+		for i := 0; i < nr; i++ {
+			if i%3 == 2 {
+				c.genCase(r.Fork(), ng+i, true) // generator wired to a real packetHandlerMap
+			} else {
+				c.routeCase(r.Fork(), i)
+			}
 		}
 	})
 	keys := make([]string, 0, len(c.dist))
@@ -160,7 +166,7 @@ func (o *mOp) coqObs() string {
 	}
 	d := u.App("MS", u.ZU(s.ActiveSeq), u.ZU(s.HighestRetired), u.ZU(s.HighestProbing), u.List(q), u.List(p),
 		u.ZU(uint64(s.Since)), u.ZU(uint64(s.PPC)), u.Opt(s.HasActiveTok, tokNum(s.ActiveTok)), hxs(s.ActiveCID),
-		u.B(s.HandshakeComplete), u.B(s.Closed))
+		u.B(s.HandshakeComplete), u.B(s.Closed), u.ZU(s.AdvertisedLimit))
 	return u.App("MO", u.Z(int64(o.cls)), hxs(o.rcid), u.B(o.flag), u.List(evs), d)
 }
 
@@ -216,6 +222,16 @@ type mgrSession struct {
 	nLimit     int
 	nProbe     int
 	label      string
+	advertised uint64 // what this endpoint told the peer with SetConnectionIDLimit (spec-driven client), else 0
+}
+
+// limit: the number of connection IDs the peer may rely on: what we advertised, which is
+// MaxActiveConnectionIDs unless a spec-driven client advertised more
+func (s *mgrSession) limit() int {
+	if s.advertised > maxActive {
+		return int(s.advertised)
+	}
+	return maxActive
 }
 
 func (c *cidRun) newMgrSession(initial []byte, label string) *mgrSession {
@@ -305,6 +321,7 @@ func (s *mgrSession) do(o *mOp) *mOp {
 		o.flag = v.IsActiveStatelessResetToken(o.tok)
 	case "setlimit":
 		v.SetConnectionIDLimit(o.seq)
+		s.advertised = o.seq
 	}
 	o.evs = v.TakeEvents()
 	o.st = v.State()
@@ -449,12 +466,12 @@ func (s *mgrSession) monitor(pre quic.VerifMgrState, o *mOp) {
 		}
 		if o.cls == quic.VerifLimitErr {
 			s.nLimit++
-			if !s.recv0(o) && peerActive <= maxActive {
-				s.fail("refused-within-limit", fmt.Sprintf("CONNECTION_ID_LIMIT_ERROR although the peer has only %d active IDs (limit %d)", peerActive, maxActive))
+			if !s.recv0(o) && peerActive <= s.limit() {
+				s.fail("refused-within-limit", fmt.Sprintf("CONNECTION_ID_LIMIT_ERROR although the peer has only %d active IDs (advertised limit %d)", peerActive, s.limit()))
 			}
 		}
-		if o.cls == quic.VerifOK && 1+len(st.Queue) > maxActive {
-			s.fail("accepted-beyond-limit", fmt.Sprintf("frame accepted with %d IDs stored (limit %d)", 1+len(st.Queue), maxActive))
+		if o.cls == quic.VerifOK && 1+len(st.Queue) > s.limit() {
+			s.fail("accepted-beyond-limit", fmt.Sprintf("frame accepted with %d IDs stored (advertised limit %d)", 1+len(st.Queue), s.limit()))
 		}
 	}
 	// (d) tokens registered == tokens of the IDs in use; nothing left after Close
@@ -620,15 +637,18 @@ func (c *cidRun) mgrWitnesses() {
 	s.do(add(4, 4)); s.do(add(2, 0)); s.do(add(6, 4)); s.do(add(7, 5))
 	s.do(&mOp{kind: "close"})
 	s.emit()
-	// W8: u_conn_id_manager.go: SetConnectionIDLimit is a no-op, the enforced limit stays MaxActiveConnectionIDs
+	// W8: a spec-driven client that advertised 8: exactly 8 IDs are accepted, the 9th is refused
 	s = c.newMgrSession(init, "W8")
 	s.do(&mOp{kind: "setlimit", seq: 8})
-	var last *mOp
-	for q := uint64(1); q <= maxActive; q++ {
-		last = s.do(add(q, 0))
+	for q := uint64(1); q <= 8; q++ {
+		s.do(add(q, 0))
 	}
-	if last.cls == quic.VerifLimitErr {
-		fmt.Fprintf(c.w, "INFO\tu_conn_id_manager.go: after SetConnectionIDLimit(8) the connection ID number %d is still refused with CONNECTION_ID_LIMIT_ERROR (enforced limit %d; advertised-vs-enforced is property C12)\n", maxActive+1, maxActive)
+	s.emit()
+	// W9: an advertised limit below MaxActiveConnectionIDs does not lower what is stored
+	s = c.newMgrSession(init, "W9")
+	s.do(&mOp{kind: "setlimit", seq: 2})
+	for q := uint64(1); q <= maxActive; q++ {
+		s.do(add(q, 0))
 	}
 	s.emit()
 	// W6: zero-length connection IDs
@@ -658,6 +678,9 @@ func (c *cidRun) mgrCase(r *u.Rng, idx int) {
 	hs := false
 	closed := false
 	tokSet := false
+	if r.Chance(1, 4) { // spec-driven client: the advertised active_connection_id_limit
+		s.do(&mOp{kind: "setlimit", seq: uint64(r.Pick(0, 2, 3, 4, 5, 6, 8, 8, 8))})
+	}
 	peerActive := func() int {
 		k := 0
 		for q := range s.recv {
@@ -725,7 +748,7 @@ func (c *cidRun) mgrCase(r *u.Rng, idx int) {
 		}
 		switch {
 		case x < 30: // fresh, in order
-			if !aggressive && peerActive() >= maxActive && r.Chance(9, 10) {
+			if !aggressive && peerActive() >= s.limit() && r.Chance(9, 10) {
 				// an honest peer first makes room with Retire Prior To
 				o := mkAdd(nextSeq, 0)
 				if o.rpt <= rptMax || o.rpt > o.seq {
@@ -964,6 +987,7 @@ type pendingID struct {
 type genSession struct {
 	c        *cidRun
 	v        *quic.VerifGen
+	rt       *quic.VerifRouting // real routing table driven by the generator's callbacks (integrated cases)
 	ops      []*gOp
 	initial  []byte
 	client   []byte
@@ -984,8 +1008,13 @@ type genSession struct {
 	nRemoved int
 }
 
-func (c *cidRun) newGenSession(initial, client []byte, hasCli bool, connLen int) *genSession {
-	s := &genSession{c: c, v: quic.VerifNewGen(initial, client, hasCli, connLen), initial: initial, client: client, hasCli: hasCli,
+func (c *cidRun) newGenSession(initial, client []byte, hasCli bool, connLen int, routed bool) *genSession {
+	v := quic.VerifNewGen(initial, client, hasCli, connLen)
+	var rt *quic.VerifRouting
+	if routed { // the generator drives a real packetHandlerMap (needs a synctest bubble for the timers)
+		v, rt = quic.VerifNewGenRouted(initial, client, hasCli, connLen)
+	}
+	s := &genSession{c: c, v: v, rt: rt, initial: initial, client: client, hasCli: hasCli,
 		len0: connLen == 0, issued: map[uint64][]byte{0: initial}, retired: map[uint64]bool{}, routed: map[string]bool{},
 		expect: map[string]bool{}, fails: map[string]bool{}}
 	s.routed[string(initial)] = true
@@ -1179,6 +1208,36 @@ func (s *genSession) monitor(o *gOp) {
 			s.fail("routing-mismatch", fmt.Sprintf("routed %s, expected (unretired + unexpired + client's original) %s", setStr(s.routed), setStr(s.expect)))
 		}
 	}
+	// integrated: the real packetHandlerMap holds exactly this connection's routed IDs
+	if s.rt != nil {
+		routes, _, _ := s.rt.Snapshot()
+		switch o.kind {
+		case "removeall":
+			if len(routes) != 0 {
+				s.fail("map-leftover", fmt.Sprintf("%d connection IDs of the connection still in the transport's map after RemoveAll (first %x)", len(routes), routes[0].CID))
+			}
+		case "replace":
+			for _, rt := range routes {
+				if rt.Kind == 1 {
+					s.fail("map-leftover", fmt.Sprintf("%x still routed to the closed connection after ReplaceWithClosed", rt.CID))
+				}
+			}
+			if len(routes) != len(s.routed) {
+				s.fail("map-mismatch", fmt.Sprintf("%d IDs map to the closed stand-in, %d were routed", len(routes), len(s.routed)))
+			}
+		default:
+			got := map[string]bool{}
+			for _, rt := range routes {
+				got[string(rt.CID)] = true
+				if rt.Kind != 1 || rt.Ref != 1 {
+					s.fail("map-mismatch", fmt.Sprintf("%x maps to kind %d/%d", rt.CID, rt.Kind, rt.Ref))
+				}
+			}
+			if !sameSet(got, s.expect) {
+				s.fail("map-mismatch", fmt.Sprintf("transport routes %s, expected %s", setStr(got), setStr(s.expect)))
+			}
+		}
+	}
 	if o.kind == "remove" {
 		for i, t := range o.st.RetireTimes {
 			if t <= o.t {
@@ -1233,7 +1292,7 @@ func (s *genSession) emit() {
 	}
 }
 
-func (c *cidRun) genCase(r *u.Rng, idx int) {
+func (c *cidRun) genCase(r *u.Rng, idx int, routed bool) {
 	len0 := r.Chance(1, 12)
 	connLen := r.Range(4, 8)
 	if len0 {
@@ -1245,7 +1304,7 @@ func (c *cidRun) genCase(r *u.Rng, idx int) {
 	if hasCli {
 		client = append([]byte{0xcc}, r.Bytes(r.Range(7, 11))...)
 	}
-	s := c.newGenSession(initial, client, hasCli, connLen)
+	s := c.newGenSession(initial, client, hasCli, connLen, routed)
 	ctr := 0
 	fresh := func(k int) [][]byte {
 		out := make([][]byte, k)
@@ -1335,15 +1394,61 @@ func (c *cidRun) genCase(r *u.Rng, idx int) {
 			now += int64(r.Intn(50))
 		}
 	}
+	// the connection ends; in two of three cases while retirements are still waiting for their
+	// expiry (the peer just retired an ID, the handshake just completed)
+	if r.Chance(2, 3) {
+		st := s.v.State()
+		if hasCli && st.HasInitial {
+			s.do(&gOp{kind: "hs", t: now + int64(r.Pick(300, 600, 900))})
+		}
+		st = s.v.State()
+		if len(st.ActiveSeqs) > 1 {
+			j := r.Intn(len(st.ActiveSeqs))
+			s.do(&gOp{kind: "retire", seq: st.ActiveSeqs[j], sent: st.ActiveCIDs[(j+1)%len(st.ActiveSeqs)], t: now + int64(r.Pick(300, 600, 900)), script: fresh(1)})
+		}
+	}
 	switch r.Intn(4) {
-	case 0:
+	case 0, 3:
 		s.do(&gOp{kind: "removeall"})
 	case 1:
 		s.do(&gOp{kind: "replace", local: true, t: int64(r.Range(1, 5000))})
 	case 2:
 		s.do(&gOp{kind: "replace", local: false, t: int64(r.Range(1, 5000))})
 	}
+	if s.rt != nil {
+		// (e) once the closing period is over nothing of the connection is left in the transport
+		time.Sleep(6000 * time.Nanosecond)
+		synctest.Wait()
+		if routes, _, _ := s.rt.Snapshot(); len(routes) != 0 {
+			s.fail("map-leftover", fmt.Sprintf("%d connection IDs of the connection still in the transport's map after the closing period (first %x)", len(routes), routes[0].CID))
+		}
+		s.c.dist["gen/cases-with-real-map"]++
+	}
 	s.emit()
+}
+
+// genWitnesses: the connection is torn down while retired IDs wait for their expiry.
+func (c *cidRun) genWitnesses() {
+	ini := []byte{0xa1, 0xa2, 0xa3, 0xa4}
+	cli := []byte{0xcc, 1, 2, 3, 4, 5, 6, 7}
+	ids := func(k int, tag byte) [][]byte {
+		out := make([][]byte, k)
+		for i := range out {
+			out[i] = []byte{0xb0 | tag, byte(i + 1), 0x55, 0x66}
+		}
+		return out
+	}
+	for _, term := range []string{"removeall", "replace"} {
+		for _, srv := range []bool{true, false} {
+			s := c.newGenSession(ini, cli, srv, 4, false)
+			s.do(&gOp{kind: "setmax", limit: 4, script: ids(8, 0)})
+			s.do(&gOp{kind: "hs", t: 1000})                                                // client's original destination ID: routed until 1000
+			s.do(&gOp{kind: "retire", seq: 1, sent: ini, t: 1200, script: ids(1, 1)})     // peer retires ID 1: routed until 1200
+			s.do(&gOp{kind: "remove", t: 500})                                             // nothing has expired yet
+			s.do(&gOp{kind: term, local: true, t: 300})
+			s.emit()
+		}
+	}
 }
 
 // ---------------------------------------------------------------------------------
@@ -1358,6 +1463,7 @@ type rOp struct {
 	n      int
 	local  bool
 	d      int64
+	size   int // replace: len(connClosePacket); deliver: packet size
 	tok    [16]byte
 	flag   bool
 	rk     int
@@ -1381,7 +1487,7 @@ func (o *rOp) coqOp() string {
 		for i, b := range o.ids {
 			ids[i] = hxs(b)
 		}
-		return u.App("RReplace", u.List(ids), u.B(o.local), u.Z(o.d))
+		return u.App("RReplace", u.List(ids), u.B(o.local), u.Z(o.d), u.Z(int64(o.size)))
 	case "advance":
 		return u.App("RAdvance", u.Z(o.d))
 	case "addtok":
@@ -1389,7 +1495,7 @@ func (o *rOp) coqOp() string {
 	case "remtok":
 		return u.App("RRemTok", tokNum(o.tok))
 	case "deliver":
-		return u.App("RDeliver", hxs(o.cid))
+		return u.App("RDeliver", hxs(o.cid), u.Z(int64(o.size)))
 	}
 	panic("bad rop")
 }
@@ -1415,7 +1521,7 @@ func (o *rOp) human() string {
 	case "remove":
 		return fmt.Sprintf("Remove(%x)", o.cid)
 	case "replace":
-		return fmt.Sprintf("ReplaceWithClosed(%x,local=%v,%dns)", o.ids, o.local, o.d)
+		return fmt.Sprintf("ReplaceWithClosed(%x,local=%v,%dns,close packet %dB)", o.ids, o.local, o.d, o.size)
 	case "advance":
 		return fmt.Sprintf("+%dns", o.d)
 	case "addtok":
@@ -1423,7 +1529,7 @@ func (o *rOp) human() string {
 	case "remtok":
 		return fmt.Sprintf("RemoveResetToken(%x)", o.tok[8:])
 	case "deliver":
-		return fmt.Sprintf("packet(%x)=>kind%d/%d sent%d", o.cid, o.rk, o.ref, o.sent)
+		return fmt.Sprintf("packet(%x,%dB)=>kind%d/%d sent%d", o.cid, o.size, o.rk, o.ref, o.sent)
 	}
 	return o.kind
 }
@@ -1456,10 +1562,12 @@ func (c *cidRun) routeCase(r *u.Rng, idx int) {
 	// shadow (model independent)
 	now := int64(0)
 	everAdded := map[string]bool{}
-	everClosed := map[string]bool{}     // appeared in some ReplaceWithClosed call
 	lastDeadline := map[string]int64{}  // latest now+expiry over all ReplaceWithClosed calls naming the ID
-	liveExpect := map[string]int{}      // ID -> connection, for IDs never named by a ReplaceWithClosed
+	liveExpect := map[string]int{}      // ID -> connection it must be routed to (until Remove / ReplaceWithClosed / AddWithConnID names it);
+	// the expiry of an earlier stand-in for the same ID must not take it away
 	delivered := map[int]int{}          // local stand-in -> packets delivered to it
+	bytesIn, bytesOut, closeLen := map[int]int{}, map[int]int{}, map[int]int{}
+	nLocal := 0
 	nReplace, nDeliver, nExpired := 0, 0, 0
 	nops := r.Range(8, 40)
 	for i := 0; i < nops; i++ {
@@ -1476,7 +1584,7 @@ func (c *cidRun) routeCase(r *u.Rng, idx int) {
 				fail("add-lost", fmt.Sprintf("Add(%x) for a free ID returned %v and maps it to kind %d/%d", o.cid, o.flag, ak, ar))
 			}
 			everAdded[string(o.cid)] = true
-			if o.flag && !everClosed[string(o.cid)] {
+			if o.flag {
 				liveExpect[string(o.cid)] = o.n
 			}
 		case x < 24:
@@ -1485,9 +1593,7 @@ func (c *cidRun) routeCase(r *u.Rng, idx int) {
 			everAdded[string(o.cid)], everAdded[string(o.cid2)] = true, true
 			if o.flag {
 				for _, k := range []string{string(o.cid), string(o.cid2)} {
-					if !everClosed[k] {
-						liveExpect[k] = o.n
-					}
+					liveExpect[k] = o.n
 				}
 			}
 		case x < 32:
@@ -1505,10 +1611,15 @@ func (c *cidRun) routeCase(r *u.Rng, idx int) {
 				}
 				seen[string(b)] = true
 			}
-			v.ReplaceWithClosed(o.ids, o.local, o.d)
+			o.size = int(r.Pick(0, 30, 40, 40, 60, 1200))
+			v.ReplaceWithClosed(o.ids, o.local, o.d, o.size)
+			if o.local {
+				closeLen[nLocal] = o.size
+				nLocal++
+			}
 			nReplace++
 			for _, b := range o.ids {
-				everAdded[string(b)], everClosed[string(b)] = true, true
+				everAdded[string(b)] = true
 				delete(liveExpect, string(b))
 				if dl := now + o.d; dl > lastDeadline[string(b)] || lastDeadline[string(b)] == 0 {
 					lastDeadline[string(b)] = dl
@@ -1529,19 +1640,27 @@ func (c *cidRun) routeCase(r *u.Rng, idx int) {
 			if r.Chance(1, 12) {
 				o.cid = foreign
 			}
-			o.rk, o.ref, o.sent = v.Deliver(o.cid)
+			o.size = int(r.Pick(1, 10, 20, 40, 100, 1200, 1200, 1200))
+			o.rk, o.ref, o.sent = v.Deliver(o.cid, o.size)
 			nDeliver++
-			// back-off of the stand-ins: CONNECTION_CLOSE again for packet 1, 2, 4, 8, ... only
+			// back-off of the stand-ins: CONNECTION_CLOSE again for packet 1, 2, 4, 8, ... only,
+			// and only while all copies together stay within 3x the bytes received (RFC 9000 10.2.1)
 			switch o.rk {
 			case 2:
 				delivered[o.ref]++
+				bytesIn[o.ref] += o.size
 				k := delivered[o.ref]
 				want := 0
-				if k&(k-1) == 0 {
+				if k&(k-1) == 0 && bytesOut[o.ref]+closeLen[o.ref] <= 3*bytesIn[o.ref] {
 					want = 1
+					bytesOut[o.ref] += closeLen[o.ref]
 				}
 				if o.sent != want {
-					fail("backoff", fmt.Sprintf("packet %d for a locally closed connection queued %d CONNECTION_CLOSE copies, want %d", k, o.sent, want))
+					fail("backoff", fmt.Sprintf("packet %d (%d bytes received, %d sent, close packet %d bytes) for a locally closed connection queued %d CONNECTION_CLOSE copies, want %d",
+						k, bytesIn[o.ref], bytesOut[o.ref], closeLen[o.ref], o.sent, want))
+				}
+				if bytesOut[o.ref] > 3*bytesIn[o.ref] {
+					fail("standin-amplification", "closed connection sent more than 3x the bytes it received")
 				}
 			case 1, 3, 0:
 				if o.sent != 0 {
